@@ -17,6 +17,7 @@ partial def readSData : List Char → Option (SData × List Char)
   | 'i' :: r => (readRaw r).bind (fun (t, r) => (String.ofList t).toInt?.map (fun i => (.int i, r)))
   | 'u' :: r => (readRaw r).bind (fun (t, r) => (String.ofList t).toNat?.map (fun i => (.uint i, r)))
   | 'F' :: r => (readRaw r).map (fun (t, r) => (if t = "null".toList then .float none else .float (some t), r))
+  | 'G' :: r => (readRaw r).map (fun (t, r) => (if t = "null".toList then .float none else .float (some t), r))
   | 'c' :: r => (readRaw r).bind (fun (t, r) => (parseHex? t).map (fun n => (.char (Char.ofNat n), r)))
   | 's' :: r => (readCps r).map (fun (t, r) => (.str t, r))
   | 'y' :: r => (readRaw r).bind (fun (t, r) => (parseBytes? (String.ofList t)).map (fun l => (.bytes (l.map (·.toNat)), r)))
